@@ -34,7 +34,7 @@ NEAR_MISS = ['', ' ', '#', '#12', '#12345', '#1234567', '#ggg', 'rgb(', 'rgb()',
              'rgba(1,2,3,)', 'rgba(1,2,3,2)', 'rgba(1,2,3,-0.5)', 'rgba(1,2,3,101)', 'hsl(', 'hsl()', 'hsl(1)', 'hsl(1,2)', 'hsl(nan, 50%, 50%)', 'hsl(inf, 50%, 50%)', 'hsl(0, nan%, 50%)', 'hsl(0, 50%, inf%)',
              'hsl(10deg, 50%, 50%)', 'hsl(0 50% 50% / 0.5)', 'hsla(', 'hsla(1,2,3)', 'hsla(1,2,3,4,5)', 'hsla(a,b,c,d)', 'hsla(0, 50%, 50%, nan)', 'hsla(0,,,)', 'hsla(0, 50%, 50%, 1e999)', 'var(--x)', 'var(--x, #fff)',
              'inherit', 'transparent', 'currentcolor', 'calc(1+2)', 'rgb(calc(1), 2, 3)', 'rgb((1,2,3))', '((1,2,3))', '(1,2,3)', '1,2,3', '1 2 3', '1,2', '٣,٣,٣', 'rgb(１,２,３)', '\x00', 'rgb(1,2,3)\n', 'NaN', 'inf', '-inf', '1e400',
-             'rgb(0x10, 1, 1)', 'rgb(1_0, 1, 1)', '#fff ', ' fff', 'FFF', 'ffff', 'red;', 'RED ', 're d', 'rgb', 'hsl', '%', '%%%', '1%,2%,3%', '.5,.5,.5', '+1,+2,+3', '--1,2,3', '1e2,1,1', 'hsl(1e2, 1%, 1%)', 'hsla(0, 50%, 50%, 50%)']
+             '#-f-f-f', '#+1+2+3', '# 1 2 3', '#0x0x0x', '#1_1_1_', '#-1-1-1', '-f-f-f', '#ＦＦＦ', 'rgb(0x10, 1, 1)', 'rgb(1_0, 1, 1)', '#fff ', ' fff', 'FFF', 'ffff', 'red;', 'RED ', 're d', 'rgb', 'hsl', '%', '%%%', '1%,2%,3%', '.5,.5,.5', '+1,+2,+3', '--1,2,3', '1e2,1,1', 'hsl(1e2, 1%, 1%)', 'hsla(0, 50%, 50%, 50%)']
 ELEMS = [0, 1, 255, 256, -1, 128, 10 ** 6, True, False, 0.0, 0.5, 1.0, 1.5, 255.0, 360.0, -0.5, float('nan'), float('inf'), float('-inf'), '0', '255', '50%', 'abc', '', ' 12 ', 'nan', 'inf', None]
 
 
@@ -94,6 +94,17 @@ def run(args):
     reps4 = verify_many([(f'{BK}:make_readable_bulk', None)], variant='c12')
     ck.absorb_A(reps4)
     ck.trust(*TRUSTED)
+    # ---- engine D: the finite-table lemma engine A uses for the hex branch
+    lib0 = rtc.load_lib()
+    digs = '0123456789abcdefABCDEF'; tb = []
+    for x in digs:
+        for y in digs:
+            try:
+                v = int(x + y, 16)
+                if not 0 <= v <= 255: tb.append((x + y, v))
+            except Exception as e: tb.append((x + y, repr(e)))
+    ck.add_obligation('D', 'lemma/int(two hex digits, 16) is in 0..255 and does not raise [all 22^2 digit pairs]', 'failed' if tb else 'discharged', 'exhaustive')
+    ck.exhaustive.append({'engine': 'D', 'what': 'int(xy, 16) for every pair of characters of "0123456789abcdefABCDEF"', 'domain': '484 strings', 'evaluations': 484, 'exhaustive': True})
     # a concrete input for failed raises-only obligations: the model's tags ARE an input shape; search the bounded twin below
     # ---- engine E: fuzz twin
     rng = random.Random(args.seed + 14)
@@ -128,7 +139,7 @@ def run(args):
     ck.assume("string methods, re.* and _NUM_RE.findall are total on str arguments and raise nothing; float(str) yields a finite float, nan, +-inf or ValueError; int(str, 16) a value or ValueError (stdlib, as documented)",
               "exceptions raised INSIDE stdlib functions contrary to their documented raise sets are not modelled",
               "ints of moderate magnitude: |n| <= 10^6 (float(10**400) overflows: outside the statement)",
-              "hex_to_rgb: the range 0..255 of int(two hex digits, 16) is a finite-table fact (engine D, check C07)",
+              "hex_to_rgb: int(two hex digits, 16) in 0..255 without raising is a finite-table lemma, checked exhaustively here (484 pairs); `all(c in LITERAL for c in s)` is read as 'every character of s is in LITERAL'",
               "hsl numeric range: proved with exact non-linear real arithmetic on {str, float triple}; every other spelling reaches the same arithmetic with (h,s,l) in the same ranges")
     return ck.finish()
 
